@@ -26,7 +26,20 @@
 //! The init line names every pair (`pools=a.b,…`) and vault (`vaults=a,…`) in creation order; the
 //! observation tokens `cbal pp vp reg on rt` simply have one entry per asset / pair / vault.
 //!
-//! The monitors evaluate C09 / C10 as stated on the real observations (balance deltas against ledger
+//! DISTRIBUTION-ASSET SWITCHES.  `distasset <h> <t> <sender> <asset index>` = the distributor's
+//! `UpdateConfig { distribution_asset }` (owner `admin`; a `stranger` must be rejected).  The collector asks
+//! the distributor for the asset on every run, so the next NewEpoch aggregates into / forwards the new
+//! asset while epochs funded in the old one are still inside the grace window; when such an epoch expires
+//! its unclaimed fees are rolled into an epoch funded in another asset (an epoch then holds several).
+//! `addroute` / `rmroute <asset> <kind> [<ask asset>]` take the ask asset of the route (default: the initial
+//! distribution asset).  Observation: the tokens up to `daoset` keep their format (`dbal dao ub ep` = the
+//! view in the INITIAL distribution asset, `ep` ledgers `-` | amount | `X` = anything else; `rt` = routes
+//! towards the CURRENT distribution asset); appended: `dist=<current asset index>`,
+//! `epa=<id>:<total>:<available>:<claimed>;…` with every ledger PER ASSET in vector order
+//! (`-` | `asset.amount[+asset.amount…]`), `dbala` / `daoa` = distributor / DAO balance per asset,
+//! `uba` = bonder balances per asset (`a.b.c` per bonder).
+//!
+//! The monitors evaluate C09 / C10 as stated on the real observations, PER ASSET (balance deltas against ledger
 //! deltas), using only their own bookkeeping (who bonded when, who was paid for which epoch, which epoch
 //! has left the grace window) — never the model.
 use crate::common::*;
@@ -108,12 +121,6 @@ impl Amt {
             _ => Amt::Other,
         }
     }
-    fn val(&self) -> u128 {
-        match self {
-            Amt::One(x) => *x,
-            _ => 0,
-        }
-    }
     fn show(&self) -> String {
         match self {
             Amt::Empty => "-".into(),
@@ -123,13 +130,46 @@ impl Amt {
     }
 }
 
+/// a `Vec<Asset>` per asset: (asset index, amount) in vector order; an asset the world does not know = 999
+type Led = Vec<(usize, u128)>;
+
+fn led_of(assets: &[String], v: &[Asset]) -> Led {
+    v.iter()
+        .map(|a| {
+            let idx = match &a.info {
+                AssetInfo::NativeToken { denom } => assets.iter().position(|d| d == denom).unwrap_or(999),
+                _ => 999,
+            };
+            (idx, a.amount.u128())
+        })
+        .collect()
+}
+
+/// amount of asset `a` on a ledger
+fn amt_of(l: &Led, a: usize) -> u128 {
+    l.iter().filter(|(k, _)| *k == a).map(|(_, x)| *x).sum()
+}
+
+fn show_led(l: &Led) -> String {
+    if l.is_empty() {
+        "-".into()
+    } else {
+        l.iter().map(|(a, x)| format!("{a}.{x}")).collect::<Vec<_>>().join("+")
+    }
+}
+
 #[derive(Clone, Debug, PartialEq, Eq)]
 struct Ep {
     id: u64,
     start: u64,
+    // legacy single-asset view w.r.t. the initial distribution asset (token `ep`)
     total: Amt,
     avail: Amt,
     claimed: Amt,
+    // the ledgers per asset (token `epa`)
+    total_l: Led,
+    avail_l: Led,
+    claimed_l: Led,
 }
 
 #[derive(Clone, Debug, PartialEq, Eq, Default)]
@@ -150,6 +190,12 @@ struct Obs {
     rate: u128,
     active: bool,
     dao_set: bool,
+    /// index of the distributor's CURRENT distribution asset
+    dist: usize,
+    /// distributor / DAO / bonder balances per asset
+    dbala: Vec<u128>,
+    daoa: Vec<u128>,
+    uba: Vec<Vec<u128>>,
 }
 
 fn join<T: ToString>(xs: &[T], sep: &str) -> String {
@@ -167,12 +213,18 @@ impl Obs {
             .iter()
             .map(|e| format!("{}:{}:{}:{}:{}", e.id, e.start, e.total.show(), e.avail.show(), e.claimed.show()))
             .collect();
+        let epa: Vec<String> = self
+            .eps
+            .iter()
+            .map(|e| format!("{}:{}:{}:{}", e.id, show_led(&e.total_l), show_led(&e.avail_l), show_led(&e.claimed_l)))
+            .collect();
+        let uba: Vec<String> = self.uba.iter().map(|u| join(u, ".")).collect();
         let trh: Vec<String> = self.trh.iter().map(|(i, a)| format!("{i}:{a}")).collect();
         let cl: Vec<String> = self.cl.iter().map(|l| join(l, ".")).collect();
         let pp: Vec<String> = self.pp.iter().map(|(a, b)| format!("{a}:{b}")).collect();
         let b = |xs: &[bool]| xs.iter().map(|x| if *x { "1" } else { "0" }).collect::<String>();
         format!(
-            "grace={} dbal={} dao={} cbal={} ep={} trh={} ub={} cl={} pp={} vp={} reg={} on={} rt={} rate={} active={} daoset={}",
+            "grace={} dbal={} dao={} cbal={} ep={} trh={} ub={} cl={} pp={} vp={} reg={} on={} rt={} rate={} active={} daoset={} dist={} epa={} dbala={} daoa={} uba={}",
             self.grace,
             self.dbal,
             self.dao,
@@ -189,10 +241,16 @@ impl Obs {
             self.rate,
             self.active as u8,
             self.dao_set as u8,
+            self.dist,
+            join(&epa, ";"),
+            join(&self.dbala, ","),
+            join(&self.daoa, ","),
+            join(&uba, ","),
         )
     }
-    fn sum_avail(&self) -> u128 {
-        self.eps.iter().map(|e| e.avail.val()).sum()
+    /// sum over all epochs of `available` in asset `a`
+    fn sum_avail(&self, a: usize) -> u128 {
+        self.eps.iter().map(|e| amt_of(&e.avail_l, a)).sum()
     }
     fn ep(&self, id: u64) -> Option<&Ep> {
         self.eps.iter().find(|e| e.id == id)
@@ -226,9 +284,16 @@ struct World {
     vault_order: Vec<usize>,
     // monitor bookkeeping (independent of the model)
     expired: BTreeSet<u64>,
-    rolled: BTreeSet<u64>,
+    rolled: BTreeSet<(u64, usize)>,
     paid: BTreeSet<(usize, u64)>,
     bond_start: Vec<Option<u64>>,
+    /// per asset: everything the collector ever transferred to the distributor at epoch creation /
+    /// everything ever paid out to claimers (the two sides of the conservation identity of C09)
+    inflows: Vec<u128>,
+    paid_out: Vec<u128>,
+    /// the known defect `claimed_second_asset` is reported once per history and monitor (every later
+    /// observation of the same epoch shows it again; the failure list of a run is capped)
+    defect_reported: [bool; 2],
     last: Obs,
 }
 
@@ -577,6 +642,9 @@ impl World {
             rolled: BTreeSet::new(),
             paid: BTreeSet::new(),
             bond_start: vec![None; NUSERS],
+            inflows: vec![0; nassets],
+            paid_out: vec![0; nassets],
+            defect_reported: [false; 2],
             last: Obs::default(),
         };
         w.last = w.observe();
@@ -693,6 +761,9 @@ impl World {
                 total: Amt::of(&e.total),
                 avail: Amt::of(&e.available),
                 claimed: Amt::of(&e.claimed),
+                total_l: led_of(&self.assets, &e.total),
+                avail_l: led_of(&self.assets, &e.available),
+                claimed_l: led_of(&self.assets, &e.claimed),
             });
         }
         for id in 1..=n {
@@ -733,14 +804,19 @@ impl World {
                 c.feature_toggle.swaps_enabled
             })
             .collect();
+        // the distributor's current distribution asset; routes are those TOWARDS it (what the collector asks for)
+        let dist = match &cfg.distribution_asset {
+            AssetInfo::NativeToken { denom } => self.assets.iter().position(|d| d == denom).unwrap_or(999),
+            _ => 999,
+        };
         let rt = (0..self.assets.len())
             .map(|i| {
-                if i == DIST {
+                if i == dist {
                     return 0u8;
                 }
                 let ops: Result<Vec<r::SwapOperation>, _> = q.query_wasm_smart(
                     &self.router,
-                    &r::QueryMsg::SwapRoute { offer_asset_info: nat(&self.assets[i]), ask_asset_info: nat(ASSETS[DIST]) },
+                    &r::QueryMsg::SwapRoute { offer_asset_info: nat(&self.assets[i]), ask_asset_info: cfg.distribution_asset.clone() },
                 );
                 ops.map(|o| o.len() as u8).unwrap_or(0)
             })
@@ -762,6 +838,10 @@ impl World {
             rate: ccfg.take_rate.atomics().u128(),
             active: ccfg.is_take_rate_active,
             dao_set: !ccfg.take_rate_dao_address.to_string().is_empty(),
+            dist,
+            dbala: self.assets.iter().map(|d| bal(&self.app, &self.dist, d)).collect(),
+            daoa: self.assets.iter().map(|d| bal(&self.app, &self.dao, d)).collect(),
+            uba: self.users.iter().map(|u| self.assets.iter().map(|d| bal(&self.app, u, d)).collect()).collect(),
         }
     }
 
@@ -878,6 +958,10 @@ struct Gen {
     setup: Vec<String>,
     scen_round: u64, // last round in which the failing-aggregation scenario was injected
     bond_edge_round: u64, // last round in which the boundary-bond scenario was injected
+    /// rounds (= number of epochs created so far) in which the owner switches the distribution asset:
+    /// the first one early enough that an epoch funded in the old asset is still inside the grace
+    /// window when later epochs are created and claimed, and leaves it before the history ends
+    switch_rounds: Vec<u64>,
 }
 
 impl Feeflow {
@@ -993,6 +1077,25 @@ impl Feeflow {
                     &[],
                 )
             }
+            "distasset" => {
+                // the distributor's owner switches the distribution asset (effective immediately)
+                let Some(ai) = pn(args.first()) else { return ("bad-op".into(), vec![]) };
+                let ai = ai as usize % w.assets.len();
+                exec(
+                    &mut w.app,
+                    &sa,
+                    &w.dist.clone(),
+                    &fd::ExecuteMsg::UpdateConfig {
+                        owner: None,
+                        bonding_contract_addr: None,
+                        fee_collector_addr: None,
+                        grace_period: None,
+                        distribution_asset: Some(nat(&w.assets[ai])),
+                        epoch_config: None,
+                    },
+                    &[],
+                )
+            }
             "colcfg" => {
                 let m: BTreeMap<&str, &str> = args.iter().filter_map(|a| a.split_once('=')).collect();
                 let rate = m.get("rate").and_then(|x| x.parse::<u128>().ok());
@@ -1095,16 +1198,28 @@ impl Feeflow {
             "addroute" | "rmroute" => {
                 let Some(ai) = pn(args.first()) else { return ("bad-op".into(), vec![]) };
                 let ai = ai as usize % w.assets.len();
-                let other = 1 - ai.min(1); // the first asset that is neither `ai` nor the distribution asset
+                // `<asset> <kind> [<ask asset>]`: the route asset -> ask (default: the initial distribution asset)
+                let ask = match args.get(2) {
+                    None => DIST,
+                    Some(x) => match x.parse::<usize>() {
+                        Ok(x) => x % w.assets.len(),
+                        Err(_) => return ("bad-op".into(), vec![]),
+                    },
+                };
+                if args.len() > 3 || !matches!(args.get(1).copied(), Some("direct") | Some("twohop")) {
+                    return ("bad-op".into(), vec![]);
+                }
+                // the first asset that is neither `ai` nor the ask asset
+                let other = (0..w.assets.len()).find(|j| *j != ai && *j != ask).unwrap_or(0);
                 let kind = args.get(1).copied().unwrap_or("direct");
                 let hop = |a: usize, b: usize| r::SwapOperation::TerraSwap {
                     offer_asset_info: nat(&w.assets[a]),
                     ask_asset_info: nat(&w.assets[b]),
                 };
-                let ops = if kind == "twohop" { vec![hop(ai, other), hop(other, DIST)] } else { vec![hop(ai, DIST)] };
+                let ops = if kind == "twohop" { vec![hop(ai, other), hop(other, ask)] } else { vec![hop(ai, ask)] };
                 let route = r::SwapRoute {
                     offer_asset_info: nat(&w.assets[ai]),
-                    ask_asset_info: nat(ASSETS[DIST]),
+                    ask_asset_info: nat(&w.assets[ask]),
                     swap_operations: ops,
                 };
                 let m = if op == "addroute" {
@@ -1233,75 +1348,183 @@ impl Feeflow {
         if op == "fwd" {
             mon.check("C10", "forward_auth", false, d(format!("ForwardFees sent by {sender} was accepted")));
         }
-        // ---- C09 epoch_ledger: claimed + available = total for every epoch that has not left the grace window
+        // ---- everything below is evaluated PER ASSET: an epoch may hold several assets once the owner has
+        // switched the distribution asset while epochs funded in the old one are still in the grace window
+        let na = w.assets.len();
+        let den = |a: usize| w.assets.get(a).cloned().unwrap_or_else(|| format!("asset#{a}"));
+        // assets that appear on any ledger (an asset the world does not know shows up as 999)
+        let mut on_ledgers: BTreeSet<usize> = (0..na).collect();
+        for e in pre.eps.iter().chain(post.eps.iter()) {
+            for l in [&e.total_l, &e.avail_l, &e.claimed_l] {
+                on_ledgers.extend(l.iter().map(|(k, _)| *k));
+            }
+        }
+        let dbal = |o: &Obs, a: usize| o.dbala.get(a).copied().unwrap_or(0);
         let newest = post.eps.first().map(|e| e.id).unwrap_or(0);
+        if op == "distasset" {
+            mon.check("C09", "distasset_owner_only", sender == "admin", d(format!("{sender} switched the distribution asset")));
+            mon.check(
+                "C09",
+                "distasset_touches_no_ledger",
+                pre.eps == post.eps && pre.dbala == post.dbala && pre.uba == post.uba && pre.cl == post.cl,
+                d(format!("switching the distribution asset changed a ledger / balance:\n pre  {}\n post {}", pre.line(), post.line())),
+            );
+            let live_old: usize = post
+                .eps
+                .iter()
+                .take(post.grace as usize)
+                .filter(|e| e.avail_l.iter().any(|(k, x)| *k != post.dist && *x > 0))
+                .count();
+            mon.stat(if post.dist == pre.dist {
+                "distasset_same_asset"
+            } else if live_old > 0 {
+                "distasset_switch_with_live_epochs_in_old_asset"
+            } else {
+                "distasset_switch_no_live_old_epochs"
+            });
+        }
         // ---- newepoch: expiry bookkeeping (by the statement: the epoch that leaves the grace window)
-        let mut rollover = 0u128;
         let mut expiring: Option<u64> = None;
         if op == "newepoch" {
             let n_pre = pre.eps.len() as u64;
             if n_pre >= pre.grace && pre.grace >= 1 {
                 expiring = Some(pre.eps[(pre.grace - 1) as usize].id);
             }
+            let new = &post.eps[0];
+            let empty: Led = vec![];
+            let rolled_l: &Led = expiring.and_then(|x| pre.ep(x)).map(|e| &e.avail_l).unwrap_or(&empty);
             if let Some(x) = expiring {
-                let xe = pre.ep(x).unwrap();
-                rollover = xe.avail.val();
                 let already = w.expired.contains(&x);
-                mon.check(
-                    "C09",
-                    "expire_once",
-                    !(already && rollover > 0) && !(rollover > 0 && w.rolled.contains(&x)),
-                    d(format!("epoch {x} rolled over a second time ({rollover})")),
-                );
-                if rollover > 0 {
-                    w.rolled.insert(x);
+                for a in on_ledgers.iter().copied() {
+                    let rollover = amt_of(rolled_l, a);
+                    mon.check(
+                        "C09",
+                        "expire_once",
+                        !(already && rollover > 0) && !(rollover > 0 && w.rolled.contains(&(x, a))),
+                        d(format!("epoch {x} rolled over a second time ({rollover} {})", den(a))),
+                    );
+                    if rollover > 0 {
+                        w.rolled.insert((x, a));
+                    }
                 }
                 w.expired.insert(x);
                 mon.check(
                     "C09",
                     "expire_once",
-                    post.ep(x).map(|e| e.avail == Amt::Empty).unwrap_or(false),
-                    d(format!("expired epoch {x} still has available {:?}", post.ep(x).map(|e| e.avail.clone()))),
+                    post.ep(x).map(|e| e.avail_l.is_empty()).unwrap_or(false),
+                    d(format!("expired epoch {x} still has available {:?}", post.ep(x).map(|e| show_led(&e.avail_l)))),
                 );
-                mon.stat(if rollover > 0 { "rollover_nonzero" } else { "rollover_zero" });
+                let any = rolled_l.iter().any(|(_, x)| *x > 0);
+                mon.stat(if any { "rollover_nonzero" } else { "rollover_zero" });
+                if rolled_l.iter().any(|(k, x)| *k != pre.dist && *x > 0) {
+                    mon.stat("rollover_in_other_than_distribution_asset");
+                }
+                if rolled_l.iter().filter(|(_, x)| *x > 0).count() > 1 {
+                    mon.stat("rollover_of_several_assets");
+                }
             } else {
                 mon.stat("newepoch_nothing_expiring");
             }
-            let new = &post.eps[0];
-            let inflow = post.dbal.wrapping_sub(pre.dbal);
             mon.check(
                 "C09",
                 "expire_once",
-                post.eps.len() == pre.eps.len() + 1 && new.total.val() == inflow + rollover && new.avail.val() == new.total.val() && new.claimed.val() == 0,
-                d(format!("new epoch {:?}: inflow {inflow} rollover {rollover}", new)),
+                post.eps.len() == pre.eps.len() + 1 && new.avail_l == new.total_l && new.claimed_l.is_empty(),
+                d(format!("new epoch {}: available {} / claimed {} but total {}", new.id, show_led(&new.avail_l), show_led(&new.claimed_l), show_led(&new.total_l))),
             );
-            mon.check(
-                "C10",
-                "epoch_total_eq",
-                post.dbal >= pre.dbal && new.total.val() == inflow + rollover,
-                d(format!("new epoch total {} != transferred {inflow} + rollover {rollover}", new.total.val())),
-            );
+            for a in on_ledgers.iter().copied() {
+                let inflow = dbal(post, a).wrapping_sub(dbal(pre, a));
+                let rollover = amt_of(rolled_l, a);
+                let tot = amt_of(&new.total_l, a);
+                let what = format!(
+                    "epoch {} left the grace window with {rollover} {} unclaimed; the collector transferred {inflow} {}; but the new epoch {} has total {tot} {}{}",
+                    expiring.map(|x| x.to_string()).unwrap_or("-".into()),
+                    den(a),
+                    den(a),
+                    new.id,
+                    den(a),
+                    if tot < inflow + rollover { format!(": {} {} of epoch {} belong to no epoch any more", inflow + rollover - tot, den(a), expiring.map(|x| x.to_string()).unwrap_or("-".into())) } else { String::new() }
+                );
+                mon.check("C09", "expire_once", dbal(post, a) >= dbal(pre, a) && tot == inflow + rollover, d(what.clone()));
+                mon.check("C10", "epoch_total_eq", dbal(post, a) >= dbal(pre, a) && tot == inflow + rollover, d(what));
+                // the collector forwards in the distribution asset only
+                mon.check(
+                    "C10",
+                    "transfer_in_distribution_asset",
+                    a == pre.dist || inflow == 0,
+                    d(format!("NewEpoch moved {inflow} {} into the distributor but the distribution asset is {}", den(a), den(pre.dist))),
+                );
+                if a < na {
+                    w.inflows[a] += inflow;
+                }
+            }
+            if pre.dist != DIST {
+                mon.stat("newepoch_in_switched_asset");
+            }
+            if new.total_l.len() > 1 {
+                mon.stat("new_epoch_holds_several_assets");
+            }
             // all other epochs untouched
             let others_same = pre.eps.iter().all(|e| Some(e.id) == expiring || post.ep(e.id) == Some(e));
             let exp_same = expiring
                 .map(|x| {
                     let (a, b) = (pre.ep(x).unwrap(), post.ep(x).unwrap());
-                    a.total == b.total && a.claimed == b.claimed && a.start == b.start
+                    a.total_l == b.total_l && a.claimed_l == b.claimed_l && a.start == b.start
                 })
                 .unwrap_or(true);
             mon.check("C09", "expire_once", others_same && exp_same, d("newepoch modified an epoch other than the expiring one".to_string()));
             Self::monitor_pipeline(w, mon, pre, post, swaps, stages);
         }
+        // ---- C09 epoch_ledger: claimed + available = total, for each asset, for every epoch that has not
+        // left the grace window; expired epochs are empty in every asset
         for e in &post.eps {
             if w.expired.contains(&e.id) {
-                mon.check("C09", "expire_once", e.avail == Amt::Empty, d(format!("expired epoch {} has available again: {:?}", e.id, e)));
+                mon.check("C09", "expire_once", e.avail_l.is_empty(), d(format!("expired epoch {} has available again: {}", e.id, show_led(&e.avail_l))));
             } else {
-                let good = e.total != Amt::Other
-                    && e.avail != Amt::Other
-                    && e.claimed != Amt::Other
-                    && e.claimed.val() + e.avail.val() == e.total.val()
-                    && (e.total == Amt::Empty) == (e.avail == Amt::Empty);
-                mon.check("C09", "epoch_ledger", good, d(format!("live epoch {:?} (newest {newest}, grace {})", e, post.grace)));
+                let keys = |l: &Led| l.iter().map(|(k, _)| *k).collect::<Vec<_>>();
+                let nodup = |l: &Led| keys(l).iter().collect::<BTreeSet<_>>().len() == l.len();
+                mon.check(
+                    "C09",
+                    "epoch_ledger",
+                    keys(&e.avail_l) == keys(&e.total_l) && nodup(&e.total_l) && nodup(&e.claimed_l),
+                    d(format!("live epoch {}: total {} available {} claimed {} do not list the same assets once each", e.id, show_led(&e.total_l), show_led(&e.avail_l), show_led(&e.claimed_l))),
+                );
+                for a in on_ledgers.iter().copied() {
+                    let (t, av, c) = (amt_of(&e.total_l, a), amt_of(&e.avail_l, a), amt_of(&e.claimed_l, a));
+                    // the funds side: what is neither available nor recorded as claimed has not left the ledger unpaid
+                    mon.check(
+                        "C09",
+                        "epoch_ledger",
+                        av <= t && c <= t - av.min(t),
+                        d(format!("live epoch {} asset {}: claimed {c} + available {av} exceeds total {t} (newest {newest}, grace {})", e.id, den(a), post.grace)),
+                    );
+                    // the equation as stated. KNOWN DEFECT of the real code (finding C09-claimed-second-asset):
+                    // `claim` creates `epoch.claimed` from the first asset it pays and never adds an entry for
+                    // another one, so in an epoch holding several assets the rewards in the other assets are
+                    // not recorded as claimed.
+                    let defect = e.total_l.len() > 1 && !e.claimed_l.is_empty() && !e.claimed_l.iter().any(|(k, _)| *k == a) && c + av < t;
+                    if defect {
+                        mon.stat("claimed_second_asset_unrecorded");
+                        let first = !w.defect_reported[0];
+                        w.defect_reported[0] = true;
+                        mon.check_tag(
+                            "C09",
+                            "epoch_ledger",
+                            "claimed_second_asset",
+                            !first,
+                            d(format!(
+                                "live epoch {} asset {}: claimed {c} + available {av} != total {t}: the epoch holds {} and its claimed ledger {} has no entry for {}",
+                                e.id, den(a), show_led(&e.total_l), show_led(&e.claimed_l), den(a)
+                            )),
+                        );
+                    } else {
+                        mon.check(
+                            "C09",
+                            "epoch_ledger",
+                            c + av == t,
+                            d(format!("live epoch {} asset {}: claimed {c} + available {av} != total {t} (newest {newest}, grace {})", e.id, den(a), post.grace)),
+                        );
+                    }
+                }
             }
         }
         if op == "grace" && post.grace > pre.grace {
@@ -1309,35 +1532,55 @@ impl Feeflow {
         }
         if op == "newepoch" {
             mon.stat(&format!("epochs_after_newepoch_{}", if post.eps.len() as u64 >= post.grace + 2 { "ge_grace_plus_2" } else { "lt_grace_plus_2" }));
-            mon.stat(&format!("inflow_mag_{}", mag_bucket(post.dbal.wrapping_sub(pre.dbal))));
+            mon.stat(&format!("inflow_mag_{}", mag_bucket(dbal(post, pre.dist).wrapping_sub(dbal(pre, pre.dist)))));
         }
-        // ---- C09 holds_available
-        mon.check(
-            "C09",
-            "holds_available",
-            post.dbal >= post.sum_avail(),
-            d(format!("distributor holds {} < sum of available {}", post.dbal, post.sum_avail())),
-        );
-        // ---- C09 payouts
-        let user_gain: Vec<u128> = (0..NUSERS).map(|i| post.ub[i].wrapping_sub(pre.ub[i])).collect();
+        // ---- C09 holds_available, per asset
+        for a in 0..na {
+            mon.check(
+                "C09",
+                "holds_available",
+                post.dbala[a] >= post.sum_avail(a),
+                d(format!("distributor holds {} {} < sum of available {}", post.dbala[a], den(a), post.sum_avail(a))),
+            );
+        }
+        // ---- C09 payouts, per asset
+        let gain = |i: usize, a: usize| post.uba[i][a].wrapping_sub(pre.uba[i][a]);
         if op == "claim" {
             let ui = uidx.unwrap_or(NUSERS);
-            let mut ledger_drop = 0u128;
-            let mut claimed_rise = 0u128;
             let mut sound = pre.eps.len() == post.eps.len();
+            let mut ledger_drop = vec![0u128; na];
+            let mut claimed_rise = vec![0u128; na];
+            let mut unrecorded = false;
             for e in &pre.eps {
                 let Some(e2) = post.ep(e.id) else {
                     sound = false;
                     continue;
                 };
-                if e2.avail.val() > e.avail.val() || e2.claimed.val() < e.claimed.val() || e2.total != e.total {
+                if e2.total_l != e.total_l {
                     sound = false;
                 }
-                let drop = e.avail.val() - e2.avail.val().min(e.avail.val());
-                ledger_drop += drop;
-                claimed_rise += e2.claimed.val() - e.claimed.val().min(e2.claimed.val());
-                if drop > 0 {
+                let mut dropped = 0u128;
+                for a in on_ledgers.iter().copied() {
+                    let (av1, av2) = (amt_of(&e.avail_l, a), amt_of(&e2.avail_l, a));
+                    let (c1, c2) = (amt_of(&e.claimed_l, a), amt_of(&e2.claimed_l, a));
+                    if av2 > av1 || c2 < c1 || a >= na && (av1 != av2 || c1 != c2) {
+                        sound = false;
+                    }
+                    if a < na {
+                        ledger_drop[a] += av1 - av2.min(av1);
+                        claimed_rise[a] += c2 - c1.min(c2);
+                        // the known defect: a reward in an asset that `claimed` has no entry for
+                        if av1 > av2 && e2.total_l.len() > 1 && !e2.claimed_l.iter().any(|(k, _)| *k == a) {
+                            unrecorded = true;
+                        }
+                    }
+                    dropped += av1 - av2.min(av1);
+                }
+                if dropped > 0 {
                     mon.stat("claim_paid_epoch");
+                    if e.total_l.len() > 1 {
+                        mon.stat("claim_paid_epoch_with_several_assets");
+                    }
                     mon.check(
                         "C09",
                         "once_per_epoch",
@@ -1350,7 +1593,7 @@ impl Feeflow {
                         "C09",
                         "not_before_bonding",
                         bs.map(|b| e.start >= b).unwrap_or(false),
-                        d(format!("{sender} paid {drop} for epoch {} started {} but bonded at {:?}", e.id, e.start, bs)),
+                        d(format!("{sender} paid {dropped} for epoch {} started {} but bonded at {:?}", e.id, e.start, bs)),
                     );
                     mon.check(
                         "C09",
@@ -1360,34 +1603,87 @@ impl Feeflow {
                     );
                 }
             }
-            let gain = if ui < NUSERS { user_gain[ui] } else { 0 };
-            let others = (0..NUSERS).filter(|i| *i != ui).all(|i| user_gain[i] == 0);
-            mon.check(
-                "C09",
-                "payout_eq_ledger_delta",
-                sound && others && gain == ledger_drop && gain == claimed_rise && pre.dbal.wrapping_sub(post.dbal) == gain,
-                d(format!(
-                    "claim by {sender}: received {gain}, available fell by {ledger_drop}, claimed rose by {claimed_rise}, distributor balance fell by {}",
-                    pre.dbal.wrapping_sub(post.dbal)
-                )),
-            );
-            mon.stat(if gain > 0 { "claim_ok_paid" } else { "claim_ok_zero" });
+            let others = (0..NUSERS).filter(|i| *i != ui).all(|i| (0..na).all(|a| gain(i, a) == 0));
+            let mut any_gain = false;
+            for a in 0..na {
+                let g = if ui < NUSERS { gain(ui, a) } else { 0 };
+                any_gain |= g > 0;
+                w.paid_out[a] += g;
+                let bal_fell = pre.dbala[a].wrapping_sub(post.dbala[a]);
+                mon.check(
+                    "C09",
+                    "payout_eq_ledger_delta",
+                    sound && others && g == ledger_drop[a] && bal_fell == g && claimed_rise[a] <= g,
+                    d(format!(
+                        "claim by {sender}, {}: received {g}, available fell by {}, claimed rose by {}, distributor balance fell by {bal_fell}",
+                        den(a), ledger_drop[a], claimed_rise[a]
+                    )),
+                );
+                if claimed_rise[a] != g {
+                    // claimed must rise by exactly the payout — except for the known defect (see epoch_ledger)
+                    if unrecorded {
+                        let first = !w.defect_reported[1];
+                        w.defect_reported[1] = true;
+                        mon.check_tag(
+                            "C09",
+                            "payout_eq_ledger_delta",
+                            "claimed_second_asset",
+                            !first,
+                            d(format!("claim by {sender}, {}: received {g} but claimed rose by {} only (an epoch holding several assets records the first one only)", den(a), claimed_rise[a])),
+                        );
+                    } else {
+                        mon.check("C09", "payout_eq_ledger_delta", false, d(format!("claim by {sender}, {}: received {g} but claimed rose by {}", den(a), claimed_rise[a])));
+                    }
+                }
+            }
+            mon.stat(if any_gain { "claim_ok_paid" } else { "claim_ok_zero" });
+            if (0..na).filter(|a| ui < NUSERS && gain(ui, *a) > 0).count() > 1 {
+                mon.stat("claim_paid_in_several_assets");
+            }
         } else {
             mon.check(
                 "C09",
                 "payout_eq_ledger_delta",
-                user_gain.iter().all(|g| *g == 0),
-                d(format!("{op} changed a bonder's balance: {:?}", user_gain)),
+                (0..NUSERS).all(|i| (0..na).all(|a| gain(i, a) == 0)),
+                d(format!("{op} changed a bonder's balance: {:?} -> {:?}", pre.uba, post.uba)),
             );
             if op != "newepoch" {
                 mon.check("C09", "payout_eq_ledger_delta", pre.eps == post.eps, d(format!("{op} changed the epoch ledgers")));
-                let gift = if op == "gift" && args.first() == Some(&"dist") && args.get(1) == Some(&"2") {
-                    args.get(2).and_then(|x| x.parse::<u128>().ok()).unwrap_or(0)
-                } else {
-                    0
-                };
-                mon.check("C09", "holds_available", post.dbal == pre.dbal + gift, d(format!("{op} changed the distributor balance")));
-                mon.check("C10", "dao_only_on_forward", post.dao == pre.dao, d(format!("{op} changed the DAO balance")));
+                for a in 0..na {
+                    let gift = if op == "gift" && args.first() == Some(&"dist") && args.get(1).and_then(|x| x.parse::<usize>().ok()).map(|x| x % na) == Some(a) {
+                        args.get(2).and_then(|x| x.parse::<u128>().ok()).unwrap_or(0)
+                    } else {
+                        0
+                    };
+                    mon.check("C09", "holds_available", post.dbala[a] == pre.dbala[a] + gift, d(format!("{op} changed the distributor's {} balance", den(a))));
+                }
+                mon.check("C10", "dao_only_on_forward", post.daoa == pre.daoa, d(format!("{op} changed the DAO balance")));
+            }
+        }
+        // ---- C09 rollover exactness over the whole history, per asset: what is available in all epochs plus
+        // what has been paid out is exactly what the collector transferred in — nothing that entered an epoch
+        // ever drops out of every ledger (expiry only MOVES it to the new epoch)
+        for a in 0..na {
+            let (av, po, inn) = (post.sum_avail(a), w.paid_out[a], w.inflows[a]);
+            if av + po != inn {
+                // name the epoch whose funds vanished: the one that expired in this step, if any
+                let culprit = expiring
+                    .and_then(|x| pre.ep(x))
+                    .map(|e| format!("; epoch {} left the grace window holding {} {} unclaimed", e.id, amt_of(&e.avail_l, a), den(a)))
+                    .unwrap_or_default();
+                let lost = inn.saturating_sub(av + po);
+                let what = format!(
+                    "{}: sum of available over all epochs {av} + paid out {po} != transferred in {inn} ({lost} {} belong to no epoch){culprit}",
+                    den(a),
+                    den(a)
+                );
+                mon.check("C09", "rollover_conserves_per_asset", false, d(what.clone()));
+                mon.check("C10", "rollover_conserves_per_asset", false, d(what));
+                // report once per history, then re-base so that later steps are judged on their own
+                w.inflows[a] = av + po;
+            } else {
+                mon.check("C09", "rollover_conserves_per_asset", true, || String::new());
+                mon.check("C10", "rollover_conserves_per_asset", true, || String::new());
             }
         }
         // ---- C09 not_before_bonding on the Claimable query: no listed epoch started before the address bonded
@@ -1422,6 +1718,8 @@ impl Feeflow {
         page: &(Vec<bool>, Vec<bool>),
     ) {
         let d = |s: String| move || s;
+        // the asset the collector aggregates into: the distributor's CURRENT distribution asset
+        let dist = pre.dist;
         let kind = args.first().copied().unwrap_or("?");
         let k = args.get(1).and_then(|x| x.parse::<usize>().ok());
         // a `Factory` target names the pairs / vaults on the factory's page for the limit it carries
@@ -1436,11 +1734,12 @@ impl Feeflow {
         mon.stat(&format!("direct_{op}_by_{}_ok", sender_class(sender)));
         // distributor, DAO, epochs, take-rate history, bonders, registry, configuration: untouched
         let rest_same = pre.grace == post.grace
-            && pre.dbal == post.dbal
-            && pre.dao == post.dao
+            && pre.dbala == post.dbala
+            && pre.daoa == post.daoa
+            && pre.dist == post.dist
             && pre.eps == post.eps
             && pre.trh == post.trh
-            && pre.ub == post.ub
+            && pre.uba == post.uba
             && pre.cl == post.cl
             && pre.reg == post.reg
             && pre.on == post.on
@@ -1538,7 +1837,7 @@ impl Feeflow {
             };
             let mut n_swapped = 0;
             for i in 0..w.assets.len() {
-                if i == DIST {
+                if i == dist {
                     continue;
                 }
                 let have = pre.cbal[i];
@@ -1580,8 +1879,8 @@ impl Feeflow {
             mon.check(
                 "C10",
                 "direct_aggregate_only_converts",
-                post.cbal[DIST] >= pre.cbal[DIST] && post.cbal[DIST] == pre.cbal[DIST] + swapped_in,
-                d(format!("direct aggregate {kind}: collector {} {} -> {} but the router paid {swapped_in}", ASSETS[DIST], pre.cbal[DIST], post.cbal[DIST])),
+                post.cbal[dist] >= pre.cbal[dist] && post.cbal[dist] == pre.cbal[dist] + swapped_in,
+                d(format!("direct aggregate {kind}: collector {} {} -> {} but the router paid {swapped_in}", w.assets[dist], pre.cbal[dist], post.cbal[dist])),
             );
         }
     }
@@ -1589,6 +1888,8 @@ impl Feeflow {
     /// C10 on a successful NewEpoch: collection, aggregation, take rate, transfer
     fn monitor_pipeline(w: &World, mon: &mut Monitor, pre: &Obs, post: &Obs, swaps: &[SwapEv], stages: &[usize]) {
         let d = |s: String| move || s;
+        // the asset the collector aggregates into and forwards: the distributor's CURRENT distribution asset
+        let dist = pre.dist;
         // fees accrued by the aggregation swaps themselves (events), per pool side
         let mut acc: BTreeMap<(usize, usize), u128> = BTreeMap::new();
         for s in swaps {
@@ -1664,7 +1965,7 @@ impl Feeflow {
         let mut swapped_in = 0u128;
         let mut n_swapped = 0;
         for i in 0..w.assets.len() {
-            if i == DIST {
+            if i == dist {
                 continue;
             }
             let have = pre.cbal[i] + collected[i];
@@ -1702,11 +2003,11 @@ impl Feeflow {
         // route whose pair no swap of this transaction went through, the pair is still in the state
         // it had when the collector simulated, so the simulation can be repeated now.
         for i in 0..w.assets.len() {
-            if i == DIST {
+            if i == dist {
                 continue;
             }
             let have = pre.cbal[i] + collected[i];
-            let direct_pool = w.pool_assets.iter().position(|(a, b)| (*a == i && *b == DIST) || (*b == i && *a == DIST));
+            let direct_pool = w.pool_assets.iter().position(|(a, b)| (*a == i && *b == dist) || (*b == i && *a == dist));
             if let Some(pi) = direct_pool {
                 if have > THRESH && pre.rt[i] == 1 && post.cbal[i] == have && pre.reg[pi] && !swaps.iter().any(|s| s.pool == pi) {
                     let sim: Result<r::SimulateSwapOperationsResponse, _> = w.app.wrap().query_wasm_smart(
@@ -1715,7 +2016,7 @@ impl Feeflow {
                             offer_amount: have.into(),
                             operations: vec![r::SwapOperation::TerraSwap {
                                 offer_asset_info: nat(&w.assets[i]),
-                                ask_asset_info: nat(ASSETS[DIST]),
+                                ask_asset_info: nat(&w.assets[dist]),
                             }],
                         },
                     );
@@ -1741,18 +2042,26 @@ impl Feeflow {
         let _ = stages;
         mon.check("C10", "untouched_or_swapped", chains == n_swapped, d(format!("{n_swapped} assets left the collector but {chains} router swaps paid it")));
         // take rate and transfer
-        let dao_got = post.dao.wrapping_sub(pre.dao);
-        let to_dist = post.dbal.wrapping_sub(pre.dbal);
-        let base = pre.cbal[DIST] + collected[DIST] + swapped_in;
+        let dao_got = post.daoa[dist].wrapping_sub(pre.daoa[dist]);
+        let to_dist = post.dbala[dist].wrapping_sub(pre.dbala[dist]);
+        let base = pre.cbal[dist] + collected[dist] + swapped_in;
         mon.check(
             "C10",
             "pipeline_conservation",
-            post.dao >= pre.dao && post.dbal >= pre.dbal && base == dao_got + to_dist && post.cbal[DIST] == 0,
+            post.daoa[dist] >= pre.daoa[dist] && post.dbala[dist] >= pre.dbala[dist] && base == dao_got + to_dist && post.cbal[dist] == 0,
             d(format!(
-                "collector had {} + collected {} + swapped in {swapped_in} = {base}; DAO got {dao_got}, distributor got {to_dist}, left {}",
-                pre.cbal[DIST], collected[DIST], post.cbal[DIST]
+                "collector had {} + collected {} + swapped in {swapped_in} = {base} {}; DAO got {dao_got}, distributor got {to_dist}, left {}",
+                pre.cbal[dist], collected[dist], w.assets[dist], post.cbal[dist]
             )),
         );
+        // the DAO and the distributor receive the distribution asset only
+        mon.check(
+            "C10",
+            "pipeline_conservation",
+            (0..w.assets.len()).all(|a| a == dist || (post.daoa[a] == pre.daoa[a] && post.dbala[a] == pre.dbala[a])),
+            d(format!("NewEpoch moved another asset than {} to the DAO / distributor: dao {:?} -> {:?}, distributor {:?} -> {:?}", w.assets[dist], pre.daoa, post.daoa, pre.dbala, post.dbala)),
+        );
+        mon.stat(if dist == DIST { "pipeline_in_initial_asset" } else { "pipeline_in_switched_asset" });
         let active = pre.active && pre.rate != 0 && pre.dao_set;
         let expect = if active {
             (cosmwasm_std::Uint256::from(base) * cosmwasm_std::Uint256::from(pre.rate) / cosmwasm_std::Uint256::from(E18)).to_string().parse::<u128>().unwrap_or(u128::MAX)
@@ -1859,6 +2168,21 @@ impl Engine for Feeflow {
                 setup: vec![],
                 scen_round: u64::MAX,
                 bond_edge_round: u64::MAX,
+                switch_rounds: {
+                    // 1 history in 4 keeps one distribution asset throughout; the others switch 1 … 3 times
+                    let rounds = grace + 2 + extra;
+                    let mut v = vec![];
+                    if !rng.chance(1, 4) {
+                        // first switch in round 1 … rounds - grace: the epochs created before it (in the old
+                        // asset) expire while the history is still running
+                        let first = rng.range(1, (rounds - grace).max(1));
+                        v.push(first);
+                        for _ in 0..rng.below(3) {
+                            v.push(rng.range(first, rounds + 1));
+                        }
+                    }
+                    v
+                },
             };
             // routes registered at the start (as ops, so that the model follows)
             for a in 0..2 {
@@ -2009,6 +2333,27 @@ impl Feeflow {
                 _ => format!("u{}", rng.below(NUSERS as u64)),
             };
             return Some(format!("{who} newepoch"));
+        }
+        // the owner switches the distribution asset (scheduled rounds): routes towards the new asset are
+        // registered first so that the pipeline keeps aggregating, a stranger tries first now and then
+        if let Some(pos) = self.g.switch_rounds.iter().position(|r| *r == n_epochs) {
+            self.g.switch_rounds.remove(pos);
+            let cur = last.dist;
+            let cands: Vec<usize> = (0..ASSETS.len()).filter(|a| *a != cur).collect();
+            let x = if rng.chance(1, 10) { cur.min(ASSETS.len() - 1) } else { *rng.pick(&cands) };
+            // popped from the end: [stranger distasset,] addroute …, admin distasset
+            self.g.setup.push(format!("admin distasset {x}"));
+            for a in 0..ASSETS.len() {
+                if a != x && rng.chance(3, 4) {
+                    let kind = if rng.chance(1, 5) { "twohop" } else { "direct" };
+                    self.g.setup.push(format!("admin addroute {a} {kind} {x}"));
+                }
+            }
+            self.g.t += 1_000_000_000;
+            if rng.chance(1, 3) {
+                return Some(format!("stranger distasset {x}"));
+            }
+            return self.g.setup.pop();
         }
         self.g.left -= 1;
         // ops inside a round: keep within 20h of the nominal start so that bonding stays allowed
@@ -2197,9 +2542,22 @@ impl Feeflow {
         } else if k < 96 {
             let kind = if rng.chance(1, 3) { "twohop" } else { "direct" };
             let who = if rng.chance(1, 10) { "stranger" } else { "admin" };
-            format!("{who} addroute {} {kind}", non_dist(rng))
+            if last.dist != DIST && rng.chance(3, 4) {
+                // towards the distribution asset the owner switched to
+                format!("{who} addroute {} {kind} {}", rng.below(na), last.dist)
+            } else if rng.chance(1, 12) {
+                // an unscheduled switch (or an attempt by somebody else), any asset of the world
+                let who = if rng.chance(1, 3) { "stranger" } else { "admin" };
+                format!("{who} distasset {}", rng.below(na.min(4)))
+            } else {
+                format!("{who} addroute {} {kind}", non_dist(rng))
+            }
         } else if k < 97 {
-            format!("admin rmroute {} direct", non_dist(rng))
+            if last.dist != DIST && rng.chance(1, 2) {
+                format!("admin rmroute {} direct {}", rng.below(na), last.dist)
+            } else {
+                format!("admin rmroute {} direct", non_dist(rng))
+            }
         } else if k < 99 {
             format!("admin toggle {} {}", rng.below(np), rng.below(2))
         } else {
